@@ -180,11 +180,15 @@ def opHyd (a b : View) : String :=
       let (d2, _) := rebuild false b st2 d2
       let after := (serializeKids d1 root).getD []
       let csr := (serializeKids d2 root2).getD []
-      let specOK := stateBeq o.state (adopt a .firstChild f).1
+      -- self-checks of the model's own theorems on this input: the loaded DOM holds the parsed forest
+      -- (`C05_load_realises_stmt`), the parser read `domOf a` (`C05_parse_print`), the walk returned
+      -- the specified state, bound (`C05_hydrate_succeeds`)
+      let specOK := stateBeq o.state (adopt a .firstChild f).1 && bound d o.state &&
+        realisesB d root f ts && decide (ts = domOf a)
       let good := o.created == 0 && d2.errs.isEmpty && treesBeq (stripL after) (stripL csr) && specOK
       let cls :=
         if good then "ok"
-        else if !specOK then "fail adopt-spec"
+        else if !specOK then "fail model-self-check"
         else if hasEmptyText a then "fail empty-text"
         else "fail unexplained"
       s!"{head} tree={orDash (encH ts)} hyd=ok created={o.created} after={orDash (encD after)} csr={orDash (encD csr)} ## {cls}"
